@@ -5,9 +5,9 @@
 set -u
 srcroot=$1; suffix=$2; id=$3; x=$4; shift 4
 src=$srcroot/$id
-wt=/tmp/seed/verify
+wt=${SEED_WT:-/tmp/seed/verify}; h2=${SEED_H2:-/tmp/h2}
 out=/verif/seeded/${id}_${x}_$suffix
-mkdir -p $out /tmp/h2out
+mkdir -p $out ${h2}out
 git -C $wt reset -q --hard; rm -f $wt/tests/demo_seed.rs
 git -C $wt apply $src/$x.patch.diff 2>/dev/null || git -C $wt apply -C1 $src/$x.patch.diff 2>/dev/null || git -C $wt apply --3way $src/$x.patch.diff 2>/dev/null || { echo "$id $x patch does not apply"; exit 2; }
 suite=$(cd $wt && cargo test --workspace --offline 2>&1 | grep -E "^test result" | tr '\n' ' ')
@@ -16,11 +16,11 @@ cp $src/$x.demo.rs $wt/tests/demo_seed.rs
 demo_with=$(cd $wt && cargo test --offline --test demo_seed 2>&1 | grep -E "^test result" | tr '\n' ' ')
 rm -f $wt/tests/demo_seed.rs
 # checks against the patched worktree
-rsync -a --exclude target --exclude Cargo.toml /verif/harness/ /tmp/h2/
+rsync -a --exclude target --exclude Cargo.toml /verif/harness/ $h2/
 results=""
-if (cd /tmp/h2 && cargo build --release --offline -q 2>/tmp/h2/build.log); then
+if (cd $h2 && cargo build --release --offline -q 2>$h2/build.log); then
   for p in $id "$@"; do
-    o=$(cd /tmp/h2 && VERIF_OUT=/tmp/h2out timeout 600 ./target/release/vcheck $p quick 2>&1); rc=$?
+    o=$(cd $h2 && VERIF_OUT=${h2}out timeout 600 ./target/release/vcheck $p quick 2>&1); rc=$?
     sig=$(echo "$o" | grep -E "^violation" | head -3 | sed 's/^violation: //' | tr '\n' ';')
     results="$results $p:rc=$rc[$sig]"
   done
